@@ -245,8 +245,6 @@ theorem mapUpdate_spec {c : Cfg} {big : Bool} {kt vt : Ty} {keys : List Atom} {v
       cases ov with
       | some x =>
         simp only at h
-        split at h
-        · cases h
         · simp only [pure, Except.pure, Except.ok.injEq, Prod.mk.injEq] at h
           obtain ⟨rfl, rfl⟩ := h
           obtain ⟨hx1, hx2⟩ := hov x rfl
@@ -273,8 +271,6 @@ theorem mapUpdate_spec {c : Cfg} {big : Bool} {kt vt : Ty} {keys : List Atom} {v
           · simp only [Option.some.injEq] at hq; subst hq; exact hz _ hpm
       | none =>
         simp only at h
-        split at h
-        · cases h
         · simp only [pure, Except.pure, Except.ok.injEq, Prod.mk.injEq] at h
           obtain ⟨rfl, rfl⟩ := h
           have spec := fun k' => removeKey_spec k' k keys vals wf.len wf.nodup
